@@ -53,6 +53,9 @@ func runC19(c *Ctx) {
 		}
 	}
 	reps := c.N(1, 6)
+	if c.Arg == "asan" {
+		reps = 2 // the address-sanitizer build is 5-6 times slower: a third of the sequences
+	}
 	stream := uint64(0)
 	for rep := 0; rep < reps; rep++ {
 		for _, p := range params {
@@ -241,7 +244,11 @@ func c19One(c *Ctx, rng *lab.RNG, cs c19Case) {
 					r.Obs("has_checks", 1)
 				}
 			case op < 96:
-				ok = roundTrip()
+				// (long histories: the same number of round trips as a 5000-operation one, or serialising large filters
+				// thousands of times dominates everything - the thorough tier ran into its watchdog)
+				if cs.Ops <= 5000 || rng.Chance(5000/float64(cs.Ops)) {
+					ok = roundTrip()
+				}
 			case op < 98:
 				ok = checkAllAdded("full check")
 				r.Obs("full_checks", 1)
